@@ -24,10 +24,12 @@ import (
 // shape describes how the corpus is laid out: batches of alphabet indexes, then deletions,
 // then re-indexed documents.
 type shape struct {
-	name    string
-	batches [][]int
-	deletes []int
-	reindex []int
+	mergeAfter   int // > 0: on-disk scorch, merging suppressed, ForceMerge after this many batches (a MERGED segment: 1-hit postings, compacted doc numbers), later batches stay separate
+	name         string
+	batches      [][]int
+	deletes      []int
+	reindex      []int
+	mergeDeletes []int // deleted BEFORE the forced merge (compacted away by it)
 }
 
 func shapes(quick bool) []shape {
@@ -43,8 +45,10 @@ func shapes(quick bool) []shape {
 		{name: "3x4+middle-segment-deleted", batches: [][]int{{0, 1, 2, 3}, {4, 5, 6, 7}, {8, 9, 10, 11}}, deletes: []int{4, 5, 6, 7}},
 		{name: "4x3+del-first-of-each", batches: [][]int{{0, 1, 2}, {3, 4, 5}, {6, 7, 8}, {9, 10, 11}}, deletes: []int{0, 3, 6, 9}},
 	}
+	s = append(s, shape{name: "disk:merged(8 docs, 2 deleted)+4 single-doc segments+del", mergeAfter: 8, batches: per, deletes: []int{9}, mergeDeletes: []int{1, 6}})
 	if !quick {
 		s = append(s,
+			shape{name: "disk:merged(all)", mergeAfter: 12, batches: per},
 			shape{name: "2+1", batches: [][]int{{2, 7}, {4}}},
 			shape{name: "all-deleted", batches: [][]int{{0, 2}, {7}}, deletes: []int{0, 2, 7}},
 			shape{name: "4x3+del-last-of-each+re", batches: [][]int{{0, 1, 2}, {3, 4, 5}, {6, 7, 8}, {9, 10, 11}}, deletes: []int{2, 5, 8, 11}, reindex: []int{5, 11}},
@@ -56,7 +60,18 @@ func shapes(quick bool) []shape {
 
 func buildShape(eng bx.Engine, sh shape) (bleve.Index, []*ref.RDoc, int) {
 	m := gen.TextMapping()
-	idx := eng.Mk(m)
+	var idx bleve.Index
+	if sh.mergeAfter > 0 && eng.Name == "scorch" {
+		var cleanup func()
+		var err error
+		idx, cleanup, err = bx.DiskScorch(m, map[string]interface{}{"scorchMergePlanOptions": bx.NoMergePlan})
+		if err != nil {
+			panic(err)
+		}
+		cleanups = append(cleanups, cleanup)
+	} else {
+		idx = eng.Mk(m)
+	}
 	live := map[int]bool{}
 	total := 0
 	chk := func(err error) {
@@ -64,7 +79,14 @@ func buildShape(eng bx.Engine, sh shape) (bleve.Index, []*ref.RDoc, int) {
 			panic(err)
 		}
 	}
-	for _, b := range sh.batches {
+	for bi, b := range sh.batches {
+		if sh.mergeAfter > 0 && bi == sh.mergeAfter {
+			for _, i := range sh.mergeDeletes {
+				chk(idx.Delete(gen.DocID(i)))
+				delete(live, i)
+			}
+			chk(bx.ForceMergeNow(idx))
+		}
 		bt := idx.NewBatch()
 		for _, i := range b {
 			chk(bt.Index(gen.DocID(i), gen.DocAlphabet[i]))
@@ -72,6 +94,9 @@ func buildShape(eng bx.Engine, sh shape) (bleve.Index, []*ref.RDoc, int) {
 			total++
 		}
 		chk(idx.Batch(bt))
+	}
+	if sh.mergeAfter >= len(sh.batches) && sh.mergeAfter > 0 {
+		chk(bx.ForceMergeNow(idx))
 	}
 	for _, i := range sh.deletes {
 		chk(idx.Delete(gen.DocID(i)))
@@ -90,6 +115,8 @@ func buildShape(eng bx.Engine, sh shape) (bleve.Index, []*ref.RDoc, int) {
 	}
 	return idx, rdocs, total
 }
+
+var cleanups []func()
 
 type step struct {
 	adv bool
@@ -371,6 +398,9 @@ func Run(r *mc.Run) {
 				if heap == 2 && (sh.name == "empty" || sh.name == "one-batch" || (r.Quick() && sh.name != "per-doc+del3+re3+del6")) {
 					continue
 				}
+				if sh.mergeAfter > 0 && eng.Name != "scorch" {
+					continue
+				}
 				idx, rdocs, total := buildShape(eng, sh)
 				adv, _ := idx.Advanced()
 				rd, err := adv.Reader()
@@ -402,6 +432,10 @@ func Run(r *mc.Run) {
 				})
 				rd.Close()
 				idx.Close()
+				for _, cl := range cleanups {
+					cl()
+				}
+				cleanups = nil
 				r.Count("index_shapes_done", 1)
 			}
 		}
